@@ -87,10 +87,16 @@ Fixpoint items_ok (n i : nat) (l : list item) : bool :=
   match l with [] => true | it :: r => item_ok i n it && items_ok n (S i) r end.
 (* the pre-rendered json.dumps() text of a float / tuple item *)
 Definition item_json_ok (it : item) : bool :=
-  match it with IOpaque _ _ j => nosent j | _ => true end.
+  match it with IOpaque _ _ j | IDictO _ _ _ j => nosent j | _ => true end.
+(* the pre-rendered repr() / json.dumps() texts of an object *)
+Definition obj_views_ok (v : value) : bool :=
+  match v with
+  | VObj _ r j _ _ => nosent r && match j with Some t => nosent t | None => true end
+  | _ => true
+  end.
 Definition value_ok (v : value) : bool :=
   nosent (str_value v) &&
-  match seq_of v with Some l => items_ok (length l) O l && forallb item_json_ok l | None => true end.
+  match seq_of v with Some l => items_ok (length l) O l && forallb item_json_ok l | None => obj_views_ok v end.
 Definition ctx_ok (c : ctx) : bool := forallb (fun kv => value_ok (snd kv)) c.
 
 (* ------------------------------------------------------------------ *)
